@@ -48,6 +48,11 @@ DIRECTED = [
     {"layout": "one", "n_ops": 2, "binding_style": "rpc", "op_style": None, "header": 0, "extra_headers": 2, "out_header": 1},
     {"layout": "one", "n_ops": 2, "binding_style": "document", "op_style": None, "header": 1, "header_same_message": 1,
      "substring_names": 1, "extra_headers": 0},
+    {"layout": "one", "n_ops": 2, "binding_style": "document", "op_style": None, "header": 1, "header_same_message": 0,
+     "extra_headers": 1, "n_faults": 1, "schema_mode": "inline", "split": {"imported": ["messages", "port_types"], "types": "both"}},
+    {"layout": "two_bindings", "n_ops": 3, "header": 1, "schema_mode": "imported", "split": {"imported": ["bindings"], "types": "both"}},
+    {"layout": "one", "n_ops": 2, "binding_style": "rpc", "op_style": None, "schema_mode": "inline",
+     "split": {"imported": ["messages", "port_types", "bindings"], "types": "imported"}},
     {"layout": "one", "n_ops": 1, "binding_style": "document", "op_style": None, "header": 1, "header_same_message": 1,
      "extra_headers": 1, "doc_two_parts": 1, "header_after_body": 1},
 ]
@@ -160,7 +165,11 @@ def run(ck: Check):
             cases.append({"files": G.render(W), "origin": "random", "features": W["features"], "W": W})
 
     jobs = [{"id": i, "sources": c["files"], "entry": ["svc.wsdl"], "wsdl": "svc.wsdl", "seed": r.randrange(1 << 30),
-             "package": "gen17_%d" % i} for i, c in enumerate(cases)]
+             "package": "gen17_%d" % i,
+             # several source files that refer to each other: one module per file would import circularly
+             # (a documented limit of the default "filenames" layout, not C17's subject)
+             "options": {"structure_style": "single-package"} if "defs.wsdl" in c["files"] else {}}
+            for i, c in enumerate(cases)]
     nproc = 6
     chunks = [jobs[k::nproc] for k in range(nproc) if jobs[k::nproc]]
     with cf.ThreadPoolExecutor(max_workers=nproc) as ex:
@@ -184,7 +193,7 @@ def run(ck: Check):
         for f in c["features"]:
             stats["features"][f] = stats["features"].get(f, 0) + 1
         try:
-            D_doc = G.read_lxml(c["files"]["svc.wsdl"])
+            D_doc = G.read_lxml_files(c["files"], "svc.wsdl")
             senv = G.read_simple_types(c["files"])
         except Exception as e:  # noqa
             ck.failure("harness-generator-invalid-wsdl", f"lxml reader failed on a generated WSDL: {e!r}", replay_of(i))
